@@ -489,6 +489,16 @@ def run_impl(ctx, seqs):
     return res
 
 
+def category(msg):
+    """failure class of an oracle message; shrinking must keep the class (dropping an op can make the sequence
+    invalid, e.g. a write to an attribute that is still None, which is a different failure)."""
+    for key, cat in (("operation raised", "exc"), ("global state changed", "changed"), ("after insert", "insert"),
+                     ("held branch", "held")):
+        if msg.startswith(key):
+            return cat
+    return "extract"
+
+
 def shrink(ctx, seq, pred):
     """delete ops (from the end first) while the failure persists; handles must stay valid, so only suffixes
     and single non-extract ops are removed."""
@@ -599,7 +609,8 @@ def run(ctx, seqs_override=None, with_real_runs=True):
         try:
             def pred(s):
                 o = run_impl(ctx, [s])[0]
-                return oracle(s, o) is not None
+                r = oracle(s, o)
+                return r is not None and category(r[1]) == category(m)
             small = shrink(ctx, seq, pred) if seq["disc"] else seq
         except Exception:  # noqa
             small = seq
